@@ -7,7 +7,7 @@ from typing import List, Optional
 from ..cfg import CFG, EXIT, RAISE
 from ..core import Ctx
 from ..model import body_stmts, dotted, kwarg, norm, walk_no_nested
-from .common import assigned_value, check_alignment_record, check_unitary_record, enclosing, prog, resolve_local, stores_to
+from .common import assigned_value, bound_args, check_alignment_record, check_unitary_record, enclosing, prog, resolve_local, stores_to
 
 
 def _raises(stmts, exc: str) -> bool:
@@ -232,8 +232,10 @@ def rule_constructors(ctx: Ctx):
               "dynamic dispatch picks the subclass's check", bad_detail="Alignment.__init__ does not call self.check() exactly when check_validity is set", key="ctor")
     g = ctx.fn("SoftAlignment.__init__", "R-C17-4")
     sup = [c for c in walk_no_nested(g.node) if isinstance(c, ast.Call) and norm(c.func) == "super().__init__"]
-    okg = len(sup) == 1 and [norm(a) for a in sup[0].args] + [f"{k.arg}={norm(k.value)}" for k in sup[0].keywords] in (
-        g.params[1:], [g.params[1], g.params[2], "check_validity=check_validity", "disorder=disorder"]) and "check_validity" in g.params
+    okg = False
+    if len(sup) == 1 and "check_validity" in g.params and len(g.params) == len(f.params):
+        ba = bound_args(sup[0], f)
+        okg = ba is not None and all(p in ba and norm(ba[p]) == q for p, q in zip(f.params[1:], g.params[1:]))
     ctx.check(okg, "R-C17-4", g, sup[0] if sup else None, "SoftAlignment passes check_validity (and the other arguments) through to Alignment.__init__",
               bad_detail="SoftAlignment.__init__ does not forward check_validity to the base constructor", key="soft-ctor")
     # dispatch: SoftAlignment overrides check
